@@ -1,4 +1,5 @@
 import CifModel.Model.Serialize
+import CifModel.Model.Numb
 /-
   CifModel.Model.Columns — value object ↔ columns of table `item_value`
   (internal/utils.h: SET_VALUE_PROPS / GET_VALUE_PROPS; misc/cif_schema.sql: the CHECK constraints of item_value).
@@ -156,5 +157,9 @@ def wfValue (parse : Str → Option NumbFields) : V → Bool
   | .lst vs => decide (widthSum (ser (.lst vs)) < SZ) && numbsParseList parse vs
   | .tbl es => decide (widthSum (ser (.tbl es)) < SZ) && numbsParseEntries parse es
   | _ => true
+
+/-- `cif_value_parse_numb` (group gB's model `Numb.parseNumb`) in the shape the deserialiser takes -/
+def parseFields (t : Str) : Option NumbFields :=
+  (Numb.parseNumb t).map (fun f => (f.neg, f.digits, f.su, f.scale))
 
 end CifModel.Model.Columns
